@@ -454,6 +454,22 @@ ValA(r0, base, P, pi, J, halfOK) ==
     IF pi = 0 THEN 2 * base + (IF halfOK /\ r0 % 8 = 0 THEN 1 ELSE 0)
     ELSE ValB(r0, Mix(r0, pi), base, P, J, halfOK)
 Val2(h, key, base, P, pi, J, halfOK) == ValA(Mix(h, key), base, P, pi, J, halfOK)
+\* "smooth" variant for outline points: the per-axis slope is an affine function of the base coordinate shared by
+\* all points of the glyph (rs), so neighbouring points move alike and IUP can leave deltas out; jitter on top
+LinS(rs, base, P) ==
+    ((P[1] * (((Slope(rs, 1) * base) \div 128) + Slope(rs \div 7, 1))) \div 2)
+    + (IF NAxes >= 2 THEN (P[2] * (((Slope(rs, 2) * base) \div 128) + Slope(rs \div 7, 2))) \div 2 ELSE 0)
+    + (IF NAxes >= 3 THEN (P[3] * (((Slope(rs, 3) * base) \div 128) + Slope(rs \div 7, 3))) \div 2 ELSE 0)
+ValSB(rs, r1, base, P, J, halfOK) ==
+    2 * (base + LinS(rs, base, P) + (IF J = 0 THEN 0 ELSE (r1 % (2 * J + 1)) - J))
+    + (IF halfOK /\ (r1 \div 64) % 4 = 0 THEN 1 ELSE 0)
+ValS(rs, r0, base, P, pi, J, halfOK) ==
+    IF pi = 0 THEN 2 * base + (IF halfOK /\ r0 % 8 = 0 THEN 1 ELSE 0)
+    ELSE ValSB(rs, Mix(r0, pi), base, P, J, halfOK)
+\* point coordinate xy (0 = x, 1 = y) of glyph gi
+PtVal(X, gi, key, xy, base, src, halfOK) ==
+    IF X.smooth THEN ValS(Mix(X.h, gi * 1000 + 800 + xy), Mix(X.h, key), base, src.p, src.pi, X.J, halfOK)
+    ELSE Val2(X.h, key, base, src.p, src.pi, X.J, halfOK)
 
 \* case-level context: [h, gp (= PtSeq), midx (point indices of the masters, 0 = default), J, halfOK, vert,
 \*                      c4, fillSame]
@@ -480,10 +496,10 @@ Drawn(c) == <<c[1]>> \o Reverse(Tail(c))
 SrcRec(X, gi, t, src, s, pat, odd) ==
     [p |-> src.p, m |-> src.m,
      c2 |-> Force([c \in 1..Len(t.shape) |-> Force([k \in 1..Len(t.shape[c]) |->
-               <<Val2(X.h, gi * 1000 + c * 100 + k * 2, t.shape[c][k][1], src.p, src.pi, X.J,
-                      X.halfOK /\ t.kind \in {"line", "quad"}),
-                 Val2(X.h, gi * 1000 + c * 100 + k * 2 + 1, t.shape[c][k][2], src.p, src.pi, X.J,
-                      X.halfOK /\ t.kind \in {"line", "quad"}),
+               <<PtVal(X, gi, gi * 1000 + c * 100 + k * 2, 0, t.shape[c][k][1], src,
+                       X.halfOK /\ t.kind \in {"line", "quad"}),
+                 PtVal(X, gi, gi * 1000 + c * 100 + k * 2 + 1, 1, t.shape[c][k][2], src,
+                       X.halfOK /\ t.kind \in {"line", "quad"}),
                  t.shape[c][k][3]>>])]),
      o2 |-> Force([i \in 1..Len(t.comps) |->
                <<Val2(X.h, gi * 1000 + 900 + i * 2, t.comps[i][2], src.p, src.pi, X.J, X.halfOK),
@@ -517,7 +533,8 @@ GlyphRec1(X, gi, t, srcs) ==
 GlyphRec(X, gi, t) ==
     GlyphRec1(X, gi, t, IF t.name = ".notdef" /\ X.notdef = "default" THEN <<SrcOfMaster(X, 1)>>
                         ELSE GlyphSrcs(X, gi, \/ t.kind = "empty" /\ X.fillSame /\ Mix(X.h, gi * 17 + 3) % 4 # 0
-                                              \/ t.name = ".notdef"))
+                                              \/ t.name = ".notdef"
+                                              \/ X.allFull))
 
 \* metric pattern mpat: 0 none varies, 1 one alone (malone), 2 all, 3 a third of them
 MVaries(X, k) == IF X.mpat = 0 THEN FALSE ELSE IF X.mpat = 1 THEN k = X.malone ELSE IF X.mpat = 2 THEN TRUE
@@ -531,7 +548,7 @@ Metric2(X, k, i) ==
 Case4(X, mp, table, used, info, glyphs, notdef) ==
     [sidx |-> Tail(X.midx), variant |-> X.v, seed |-> X.seed, nax |-> NAxes,
      mode |-> IF X.c4 THEN "C04" ELSE "C03", vert |-> X.vert, masters |-> mp, glyphs |-> glyphs, notdef |-> notdef,
-     jitter |-> X.J, halves |-> IF X.halfOK THEN 1 ELSE 0, mpat |-> X.mpat,
+     jitter |-> X.J, halves |-> IF X.halfOK THEN 1 ELSE 0, smooth |-> IF X.smooth THEN 1 ELSE 0, mpat |-> X.mpat,
      info |-> info,
      mexp |-> Force([i \in 1..Len(mp) |-> Force([k \in 1..Len(used) |-> <<MetricTable[used[k]][1], Rnd2(info[i][k][2])>>])]),
      dexp |-> Force([k \in 1..Len(used) |-> <<MetricTable[used[k]][1], Rnd2(info[1][k][2])>>])
@@ -549,6 +566,10 @@ Case1(ssx, v, seed, c4, gp, h) ==
     Case2([h |-> h, gp |-> gp, midx |-> <<0>> \o ssx, v |-> v, seed |-> seed, c4 |-> c4,
            J |-> <<0, 1, 6>>[(Mix(h, 77) % 3) + 1], halfOK |-> Mix(h, 78) % 3 = 0, vert |-> Mix(h, 79) % 2,
            fillSame |-> Mix(h, 81) % 2 = 0,
+           \* half of the fonts: smooth outlines (IUP has something to leave out)
+           smooth |-> Mix(h, 89) % 2 = 0,
+           \* C04: a third of the fonts have no sparse glyph at all (one variation model: the direct HVAR store is possible)
+           allFull |-> c4 /\ Mix(h, 88) % 3 = 0,
            notdef |-> IF c4 THEN <<"absent", "all", "default">>[(Mix(h, 82) % 3) + 1] ELSE "absent",
            mpat |-> IF c4 THEN Mix(h, 83) % 4 ELSE (Mix(h, 83) % 2) * 3, malone |-> (Mix(h, 84) % NMetrics) + 1])
 \* the abstract font of descriptor <<"case", S, v>> under parameters P
